@@ -9,12 +9,14 @@ cd $WT || exit 2
 git checkout -q -- . ; rm -f $PKG/zz_seed_demo_test.go
 NEWDIR=0; [ -d $PKG ] || { mkdir -p $PKG; NEWDIR=1; }
 BASEPKG=./$PKG/; [ $NEWDIR = 1 ] && BASEPKG=""
+NAMES=$(grep -ohE '^func (Test[A-Za-z0-9_]+)' $SD/$DEMO | awk '{print $2}' | paste -sd'|')
+[ -n "$NAMES" ] || NAMES='Seed|Demo|seed|demo'
 run() { timeout 1200 go test -vet=off -count=1 -p 4 "$@" 2>&1 | tail -5; return ${PIPESTATUS[0]}; }
 echo "== existing tests, clean tree"; run $BASEPKG $EXTRA; R0=$?
 cp $SD/$DEMO $PKG/zz_seed_demo_test.go
-echo "== demo on clean tree (expect pass)"; run ./$PKG/ -run 'Seed|Demo|seed|demo|TestC[0-9][0-9][AB]_|Preexisting'; R1=$?
+echo "== demo on clean tree (expect pass)"; run ./$PKG/ -run "^($NAMES)\$"; R1=$?
 git apply $SD/patch.diff || { echo "PATCH DOES NOT APPLY"; exit 3; }
-echo "== demo with patch (expect FAIL)"; run ./$PKG/ -run 'Seed|Demo|seed|demo|TestC[0-9][0-9][AB]_|Preexisting'; R2=$?
+echo "== demo with patch (expect FAIL)"; run ./$PKG/ -run "^($NAMES)\$"; R2=$?
 rm -f $PKG/zz_seed_demo_test.go
 echo "== existing tests with patch (expect pass)"; run $BASEPKG $EXTRA; R3=$?
 git checkout -q -- .; [ $NEWDIR = 1 ] && rm -rf $PKG
